@@ -10,7 +10,7 @@ void join_cb(const long long* v, const long long* pts, int npts) {
   if (!g_js || ++g_jn > 80) return;
   std::vector<Point64> P; for (int i = 0; i < npts; ++i) P.emplace_back((int64_t)pts[2 * i], (int64_t)pts[2 * i + 1]);
   (*g_js) << Ev("Join").kv("pk", jints({v[0], v[1]})).kv("pj", jints({v[2], v[3]})).kv("nk", jints({v[4], v[5]})).kv("nj", jints({v[6], v[7]}))
-              .kn("d", v[8]).kn("jt", v[9]).kn("et", v[10]).kn("ml", v[11]).kv("pts", jpath(P)).str() << "\n";
+              .kn("d", v[8]).kn("jt", v[9]).kn("et", v[10]).kn("ml", v[11]).kn("at", v[12]).kn("spr", v[13]).kn("cap", v[14]).kv("pts", jpath(P)).str() << "\n";
 }
 const double PI_ = 3.14159265358979323846;
 Path64 star(Rng& r, int cx, int cy, int nv, int rmin, int rmax) {
